@@ -234,6 +234,9 @@ impl Check for AutoCommitCheck {
         res.viols.retain(|v| seen.insert(v.class.clone()));
         res
     }
+    fn shrink_candidates(&self, case: &Case) -> Vec<Case> {
+        crate::checks::conc::shrink_thread_programs(case)
+    }
     fn rule(&self) -> String {
         "2-4 simulated client threads call ndb_execute_write (the auto-commit entry point the Python/Node bindings use) with read-modify-write statements on two shared counter nodes (SET n.v = n.v + 1), conditional creates (MERGE) on two shared keys and copy statements, under the seeded cooperative scheduler; the gap between snapshot acquisition and writer-lock acquisition inside the entry point spans several scheduling points. Oracle: final counter == number of increments acknowledged with NDB_OK; exactly one node per merged key. evaluations = simulated runs; distinct_nontrivial = distinct context-switch sequences.".into()
     }
